@@ -320,7 +320,29 @@ def read_batch(b):
     except Exception as ex:
         rec["validate"] = f"{C.exc_name(ex)}: {str(ex)[:150]}"
     rec["tf"] = D.read_tf(b)
+    rec["ptrs"] = storage_ptrs(b)
     return rec
+
+
+def storage_ptrs(b):
+    """data_ptr of every non-empty payload tensor a batch holds (dense features, y, values of the containers)."""
+    out = []
+
+    def add(t):
+        if isinstance(t, torch.Tensor):
+            if t.numel() > 0:
+                out.append(t.data_ptr())
+        elif isinstance(t, dict):
+            for v in t.values():
+                add(v)
+        elif t is not None:
+            add(getattr(t, "values", None))     # not `offset`: a row selection of an embedding container keeps
+                                                # the (read-only) column offsets of its source
+
+    for f in b.feat_dict.values():
+        add(f)
+    add(b.y)
+    return out
 
 
 def run(case):
@@ -369,15 +391,24 @@ def run(case):
     if case["src"] != "tf":
         obs["materialized_after"] = bool(src.is_materialized)
     obs["epochs"] = []
+    kept = []          # every batch object of every epoch stays alive until the end
     for _ in range(case["epochs"]):
         ep = {"batches": []}
+        objs = []
         try:
+            # the whole epoch is collected first (`list(loader)`) and only then inspected: a batch must stay
+            # what it was when it was yielded
             for b in loader:
-                ep["batches"].append(read_batch(b))
+                objs.append(b)
         except Exception as ex:
             ep["exc"] = C.exc_name(ex)
             ep["msg"] = str(ex)[:200]
+        ep["batches"] = [read_batch(b) for b in objs]
+        kept.append(objs)
         obs["epochs"].append(ep)
+    # ... and the batches of earlier epochs are inspected again after all later epochs ran
+    for ep, objs in zip(obs["epochs"], kept):
+        ep["reread"] = [read_batch(b) for b in objs]
     obs["user_collate_calls"] = ucoll.calls
     return obs
 
@@ -466,6 +497,11 @@ def oracle(case, obs):
             if b["tf"]["names"] != names:
                 return dict(key="names", what=f"batch {k} has different column names than the source",
                             expected=names, observed=b["tf"]["names"])
+        again = ep.get("reread", got)
+        for k, (b, b2) in enumerate(zip(got, again)):
+            if b2.get("tf") != b["tf"] or b2.get("len") != b["len"]:
+                return dict(key="batch-overwritten", what=f"epoch {e} batch {k} changed after it was delivered "
+                            f"(inspected again after the following epoch(s))", expected=b["tf"], observed=b2.get("tf"))
         got_rows = [rows_of(b["tf"]) for b in got]
         # the batch's own account of its size must be the number of rows its payload holds
         for k, (b, br) in enumerate(zip(got, got_rows)):
@@ -525,6 +561,13 @@ def oracle(case, obs):
                 return dict(key=f"batch-content:{kind}:{case['src']}",
                             what=f"epoch {e} batch {k} is not the selection of rows {idx} of the source",
                             expected=want_rows, observed=br)
+        # batches selecting different rows must not live in the same storage (a later batch would overwrite
+        # an earlier one the caller kept)
+        for k1 in range(len(got)):
+            for k2 in range(k1 + 1, len(got)):
+                if exp[k1] != exp[k2] and set(got[k1].get("ptrs", [])) & set(got[k2].get("ptrs", [])):
+                    return dict(key="batches-share-storage",
+                                what=f"epoch {e}: batches {k1} and {k2} (rows {exp[k1]} / {exp[k2]}) share tensor storage")
         served = sum(len(idx) for idx in exp)
         if sum(b["len"] for b in got) != served:
             return dict(key=f"rows-served:{kind}", what=f"epoch {e}: batch lengths sum to {sum(b['len'] for b in got)}, "
